@@ -40,10 +40,15 @@ func replay(c *checker) {
 			Hex    string  `json:"hex"`
 			Bits   string  `json:"bits"`
 			Text   string  `json:"text"`
+			Hint   int     `json:"hint"`
 			Shared bool    `json:"shared"`
 			Opts   serOpts `json:"opts"`
 		}
 		lib.Remarshal(in, &x)
+		if x.Hint < 0 || x.Hint >= nHintModes {
+			x.Hint = 0
+		}
+		c.hint = x.Hint
 		switch x.Kind {
 		case "json-events":
 			c.jsonEvent(x.Ev, "replay", true)
@@ -130,7 +135,9 @@ func run(c *checker, rng *lib.Rng) {
 	thorough := c.cfg.Thorough()
 	maxNodes, nRandom, nText, nData := 6, 20000, 6000, 1500
 	coqExh, coqRandom, coqText, coqScalar, coqPb := 500, 500, 700, 1200, 500
+	coqDeep, nBeyond := 100, 3000
 	if thorough {
+		coqDeep, nBeyond = 600, 60000
 		maxNodes, nRandom, nText, nData = 8, 600000, 100000, 40000
 		coqExh, coqRandom, coqText, coqScalar, coqPb = 5000, 5000, 6000, 8000, 5000
 	}
@@ -160,6 +167,37 @@ func run(c *checker, rng *lib.Rng) {
 	c.res.Extra["exhaustive_trees"] = idx
 	c.res.Extra["exhaustive_max_nodes"] = maxNodes
 	c.res.Exhaustive = false
+	// ---- depth, width and position count across (and far beyond) every preallocated capacity, each stream under
+	// each length-hint policy by turns
+	bc := beyondCapacity(rng.Fork(), thorough)
+	// the model is evaluated on a sample of those of at most coqNodes nodes (depth up to ~60, width up to ~200)
+	const coqNodes = 220
+	nSmall := 0
+	for _, fe := range bc {
+		if fe.e.size() <= coqNodes {
+			nSmall++
+		}
+	}
+	bstride, kSmall := nSmall/coqDeep+1, 0
+	for i, fe := range bc {
+		c.hint = i % nHintModes
+		toCoq := false
+		if fe.e.size() <= coqNodes {
+			kSmall++
+			toCoq = kSmall%bstride == 0
+		}
+		c.jsonEvent(fe.e, fe.fam, toCoq)
+		c.pbEvent(fe.e, fe.fam, toCoq)
+		if isValueTree(fe.e) {
+			c.pbValue(fe.e, fe.fam, toCoq && kSmall%(2*bstride) == 0)
+			if isDataTree(fe.e) && jsonWf(fe.e) && i%3 == 0 {
+				// the same value through the real Serializer in front of both transports
+				c.dataValue(fe.e, i%2 == 0, allSerOpts[i%len(allSerOpts)], fe.fam)
+			}
+		}
+	}
+	c.hint = 0
+	c.res.Extra["beyond_capacity_trees"] = len(bc)
 	// ---- every pool scalar in every position class
 	var scalars []*Ev
 	for _, v := range poolInts {
@@ -209,6 +247,7 @@ func run(c *checker, rng *lib.Rng) {
 		r := rng.Fork()
 		o := treeOpts{depth: 2 + r.Intn(3), width: 1 + r.Intn(5), refs: r.Chance(2, 3), maxRefs: 4, wild: r.Chance(1, 8)}
 		e := randTree(r, o, 0)
+		c.hint = i % nHintModes
 		c.jsonEvent(e, "random", i < coqRandom)
 		o.anyKeys = true
 		e2 := randTree(r, o, 0)
@@ -218,6 +257,25 @@ func run(c *checker, rng *lib.Rng) {
 			c.pbValue(v, "random", i/4 < coqPb)
 		}
 	}
+	c.hint = 0
+	// ---- seeded random trees beyond the capacities (deep and narrow / wide and shallow / many positions)
+	for i := 0; i < nBeyond; i++ {
+		r := rng.Fork()
+		c.hint = r.Intn(nHintModes)
+		toCoq := i < coqDeep/2
+		e1, e2 := randBeyond(r, r.Chance(2, 3), false, false), randBeyond(r, r.Chance(2, 3), true, false)
+		c.jsonEvent(e1, "random-beyond", toCoq && e1.size() <= 220)
+		c.pbEvent(e2, "random-beyond", toCoq && e2.size() <= 220)
+		if i%3 == 0 {
+			v := randBeyond(r, false, false, true)
+			c.pbValue(v, "random-beyond", i/3 < coqDeep/4 && v.size() <= 220)
+			for _, e := range c.dataValue(v, i%2 == 0, allSerOpts[i%len(allSerOpts)], "random-beyond") {
+				c.jsonEvent(e, "serializer-output", false)
+				c.pbEvent(e, "serializer-output", false)
+			}
+		}
+	}
+	c.hint = 0
 	// ---- Data values through the real serializer, both transports
 	nEmitted := 0
 	for i := 0; i < nData; i++ {
@@ -238,12 +296,21 @@ func run(c *checker, rng *lib.Rng) {
 	for i := 0; i < nText; i++ {
 		r := rng.Fork()
 		var ps []string
-		randJSONPieces(r, 0, &ps)
 		fam := "valid"
+		switch {
+		case i%10 == 7:
+			randJSONPiecesD(r, 0, 6+r.Intn(14), 3, &ps) // deeper than the consumers' 8 frames
+			fam = "valid-deep"
+		case i%10 == 9:
+			randJSONPiecesD(r, 0, 2, 10+r.Intn(30), &ps) // more members than JsonToData's length hint of 8
+			fam = "valid-wide"
+		default:
+			randJSONPieces(r, 0, &ps)
+		}
 		switch i % 4 {
 		case 1:
 			ps = mutatePieces(r, ps)
-			fam = "mutated"
+			fam += "-mutated"
 		case 2:
 			if i%8 == 2 {
 				ps = nil
